@@ -701,11 +701,61 @@ def sizes(rep, prog, rule, siblings=False):
                         "(103 rows in 4 parts: 25,26,26,26 against 26,26,26,25)" % (f.name, fmt(e)[:70]))
             else:
                 rep.ok(rule, key, divs[0][1], "boundaries %s (sizes differ by at most one)" % fmt(divs[0][0])[:60])
+        elif divs and rems and _step_reassigned(f):
+            l_, at_ = _step_reassigned(f)
+            rep.bad(rule, key + "|step-reassigned", at_,
+                    "%s computes the step as size / parts and then assigns `%s` again: the sizes of the "
+                    "parts are no longer the balanced ones every other split of the crate produces "
+                    "(the immutable and the mutable split of one view are zipped band by band)" % (
+                        f.name, f.local_name(l_) or "_%d" % l_))
         elif divs and rems:
             rep.ok(rule, key, divs[0][1], "step %s, surplus %s" % (fmt(divs[0][0])[:50], fmt(rems[0][0])[:50]))
         else:
             rep.unk(rule, key, f.loc, "floor quotient %s, remainder %s" % (bool(divs), bool(rems)))
     rep.floor(rule, "splits that size their parts", n, 4)
+
+
+def _step_reassigned(f):
+    """(local, where) of a named local that holds `x / parts` or `x % parts` and is assigned a second
+    time with something else than itself minus / plus one; None if there is none"""
+    defs = f.defs()
+    for l, ds in defs.items():
+        if not f.local_name(l) or l == 0:
+            continue
+        whole = [d for d in ds if d[3]]
+        if len(whole) < 2:
+            continue
+        first = None
+        for (bb, j, rv, w) in whole:
+            src = rv
+            if rv[0] == "use" and rv[1][0] in ("c", "m") and len(rv[1][1]) == 1:
+                # `step = _tmp` with _tmp = Div(..)
+                t = rv[1][1][0]
+                tds = [d for d in defs.get(t, []) if d[3]]
+                if len(tds) == 1:
+                    src = tds[0][2]
+            if src[0] == "bin" and src[1] in ("Div", "Rem"):
+                first = (bb, j)
+        if first is None:
+            continue
+        for (bb, j, rv, w) in whole:
+            if (bb, j) == first:
+                continue
+            src = rv
+            if rv[0] == "use" and rv[1][0] in ("c", "m") and len(rv[1][1]) >= 1:
+                t = rv[1][1][0]
+                tds = [d for d in defs.get(t, []) if d[3]]
+                if len(tds) == 1:
+                    src = tds[0][2]
+            # `modulo -= 1` / `+= 1` (checked arithmetic: a pair whose field 0 is taken)
+            txt = str(src)
+            if src[0] == "bin" and src[1].startswith(("Sub", "Add")) and str(l) in txt:
+                continue
+            if "SubWithOverflow" in txt or "AddWithOverflow" in txt:
+                continue
+            at = f.blocks[bb]["s"][j][3] if isinstance(j, int) else f.loc
+            return (l, at)
+    return None
 
 
 def _with_captures(prog, g, e, depth=0):
